@@ -119,6 +119,9 @@ class Exec:
         m = re.match(r"^const (true|false)$", op)
         if m:
             return ("bool", m.group(1))
+        m = re.match(r"^const '(.|\\.|\\u\{[0-9a-f]+\})'$", op)
+        if m:
+            return ("char", m.group(1))
         m = re.match(r'^const "(.*)"$', op, re.S)
         if m:
             return ("str", m.group(1))
@@ -362,6 +365,11 @@ class Exec:
         m = re.match(r"^std::option::Option::<.*>::None$", rv)
         if m:
             return ("enum", "Option", "0", {})
+        # array aggregate  [op, op, ..]  (also what `vec![..]` writes into its box): kept as a value and remembered per path
+        if rv.startswith("[") and rv.endswith("]") and "; " not in rv:
+            v = ("array", [self.operand(env, x) for x in split_top(rv[1:-1])] if rv[1:-1].strip() else [])
+            env["$last_array"] = v
+            return v
         # struct aggregate  Type::<..> { f: op, ... }
         m = re.match(r"^([\w:]+?)(?:::<[^{]*>)? \{ (.*) \}$", rv)
         if m:
@@ -501,7 +509,7 @@ class Exec:
                     elif name == k or ("::" in k and strip_trailing_generics(callee).endswith(k)):
                         model = f
                         break
-                self.cur_events, self.cur_callee, self.cur_pc = events, callee, pc
+                self.cur_events, self.cur_callee, self.cur_pc, self.cur_env = events, callee, pc, env
                 res = model(self, argv) if model else self.havoc(self.locs.get(dst))
                 for bl in env.get("$mutborrowed") or ():
                     env[bl] = self.havoc(self.locs.get(bl))
@@ -696,6 +704,14 @@ def m_from_residual(ex, argv):
 
 def m_len(ex, argv):
     return ("int", ex.len_of(argv[0])) if argv else ex.havoc("usize")
+
+
+def m_vec_from_array(ex, argv):
+    """`vec![a, b, c]` / `Vec::from([..])`: the vector holds the array written just before (per path)"""
+    if argv and argv[0][0] == "array":
+        return argv[0]
+    v = (getattr(ex, "cur_env", None) or {}).get("$last_array")
+    return v if v is not None else ex.opq()
 
 
 def m_is_empty(ex, argv):
